@@ -32,11 +32,11 @@ TRUSTED = ["(R) not verified, compared with the verified reference spw_decide on
 ASSUMPTIONS = ["orders are complete over the instance's alternatives, classes non-empty, axis = permutation of the "
                "alternatives (quantifier of C11); instance.orders holds distinct orders"]
 COVER_FILES = ['properties/subdomains/ordinal/singlepeaked/singlepeakedness.py', 'properties/subdomains/consecutive_ones.py']
-TIMEOUT_S = 60.0
-CHUNK = 20
+TIMEOUT_S = 180.0            # per chunk of CHUNK cases (ILP-heavy chunks on a loaded machine)
+CHUNK = 8
 
 DT = {0: "soc", 1: "soi", 2: "toc", 3: "toi", 4: "cat"}
-THEOREMS_FOR_OP = {"c11.pq_exact": "pq_tree_sp_sound (Proofs/PQTreeSP.v)", "c11.axes": "axis_test_correct", "c11.deciders": "spw_decide_correct / check_axis_correct / strict_agree",
+THEOREMS_FOR_OP = {"c11.pq_exact": "pq_tree_sp_sound (Proofs/PQTreeSP.v)", "c11.elo_exact": "strict_agree / elo_correct (Proofs/ELO.v)", "c11.axes": "axis_test_correct", "c11.deciders": "spw_decide_correct / check_axis_correct / strict_agree",
                    "c11.gate": "C11_gate"}
 
 
@@ -353,6 +353,91 @@ def generate(tier, seed):
         rng.shuffle(votes)
         prof = distinct_semantic(votes)
         out.append(case("c11.pq_exact", [dtype_of(prof), rand_perm(rng, alts), prof, 0], m=m, kind="large"))
+
+    # ---- VOLUME for c11.pq_exact at m = 8..10, n = 3..5, strict and weak, planted on a hidden axis / near-axis (one vote
+    #      perturbed): nested P/Q structures only appear there (~1e-4 .. 1e-3 of such profiles).  The 4th payload field
+    #      carries the planted axis: if it passes the verified checker c11.check_axis, a False answer of the
+    #      implementation is a violation whatever the mirror says.
+    from . import c03 as C03
+    npqv = 8000 if not thorough else 40000
+    for i in range(npqv):
+        m = rng.randint(8, 10)
+        alts = rng.sample(range(0, rng.choice([m, 40, 1000])), m)
+        axis = rand_perm(rng, alts)
+        n = rng.randint(3, 5)
+        g = i % 20
+        if g < 12:
+            flat = C03.corr_votes(rng, axis, n, rng.choice([0.3, 0.5, 0.6, 0.7, 0.8]))
+        elif g < 17:
+            flat = [C03.walsh(rng, axis) for _ in range(n)]
+        elif g < 18:
+            flat = [C03.conitzer(rng, axis) for _ in range(n)]
+        else:
+            flat = None
+        weak = (i % 3 == 1)
+        if flat is not None:
+            votes = []
+            for v in flat:
+                o = [[v[0]]]
+                for a in v[1:]:            # merging adjacent ranks of a single-peaked ranking keeps it single-peaked
+                    if weak and rng.random() < 0.3:
+                        o[-1].append(a)
+                    else:
+                        o.append([a])
+                votes.append(o)
+        else:
+            votes = []
+            for _ in range(n):
+                o = planted_weak(rng, axis, p_big=(0.25 if weak else 0.0))
+                if not weak:
+                    o = [[a] for c_ in o for a in c_] if all(len(c_) == 1 for c_ in o) else strictify_sp(rng, o, axis)
+                votes.append(o)
+        if (i // 3) % 4 == 3:              # near-axis: one vote perturbed (adjacent swaps or one displaced alternative)
+            k = rng.randrange(len(votes))
+            fl = [a for c_ in votes[k] for a in c_]
+            sizes = [len(c_) for c_ in votes[k]]
+            if rng.random() < 0.6:
+                for _ in range(rng.randint(1, 2)):
+                    j = rng.randrange(m - 1)
+                    fl[j], fl[j + 1] = fl[j + 1], fl[j]
+            else:
+                a = fl.pop(rng.randrange(m))
+                fl.insert(rng.randrange(m), a)
+            o, j = [], 0
+            for sz in sizes:
+                o.append(fl[j:j + sz])
+                j += sz
+            votes[k] = o
+        rng.shuffle(votes)
+        prof = distinct_semantic(votes)
+        out.append(case("c11.pq_exact", [dtype_of(prof), rand_perm(rng, alts), prof, axis], m=m, kind="volume"))
+
+    # ---- is_single_peaked against its mirror c03.elo (proved = the definition) and the planted axis on strict planted
+    #      profiles, m = 7..10, n = 2..3 (clause "agree with is_single_peaked on strict profiles"): Walsh / Conitzer /
+    #      correlated bottom-up votes, topped up with elimination schedules alternating single- and two-candidate rounds
+    nelo = 4000 if not thorough else 20000
+    nalt = 1500 if not thorough else 8000
+    made_alt, i = 0, 0
+    while i < nelo or made_alt < nalt:
+        m = rng.randint(7, 10)
+        n = rng.choice([2, 2, 3])
+        alts = rng.sample(range(0, rng.choice([m, 30, 10 ** 6])), m)
+        axis = rand_perm(rng, alts)
+        g = i % 3
+        if g == 0:
+            votes = [C03.walsh(rng, axis) for _ in range(n)]
+        elif g == 1:
+            votes = [C03.conitzer(rng, axis) for _ in range(n)]
+        else:
+            votes = C03.corr_votes(rng, axis, n, rng.choice([0.3, 0.6, 0.8]))
+        votes = C03.distinct(votes)
+        isalt = C03.alternating(C03.rounds_pattern(votes))
+        if i < nelo or isalt:
+            out.append(case("c11.elo_exact", [rand_perm(rng, alts), votes, axis], m=m, alt=int(isalt)))
+            made_alt += isalt
+        i += 1
+        if i > 60 * (nelo + nalt):
+            break
     return out
 
 
@@ -411,6 +496,13 @@ def impl(c):
             r = guarded(SPM.is_single_peaked, _instance(dt, alts, profile))
             res["elo"] = [0, int(bool(r[1][0]))] if r[0] == 0 else r
         return res
+    if op == "c11.elo_exact":
+        alts, rankings, planted = pl
+        inst = ordinal_instance([([[a] for a in v], 1) for v in rankings], data_type="soc", alts=list(alts))
+        r = guarded(SPM.is_single_peaked, inst)
+        if r[0] == 1:
+            return {"elo": r}
+        return {"elo": [0, int(bool(r[1][0]))], "axis": [int(a) for a in r[1][1]] if r[1][0] else []}
     if op == "c11.pq_exact":
         dt, alts, profile, _ = pl
         inst = _instance(dt, alts, profile)
@@ -456,8 +548,17 @@ def oracle_requests(c, r):
         dt, alts, profile, axis = pl
         return [("c11.axis_test", [dt, profile, axis]), ("c11.pq_tree", [dt, alts, profile]), ("c11.ilp", [dt, alts, profile])]
     if op == "c11.pq_exact":
-        dt, alts, profile, _ = pl
-        return [("c11.pq_algo", [dt, alts, profile, r["elems"] if isinstance(r, dict) and "elems" in r else []])]
+        dt, alts, profile, planted = pl
+        reqs = [("c11.pq_algo", [dt, alts, profile, r["elems"] if isinstance(r, dict) and "elems" in r else []])]
+        if isinstance(planted, list) and planted:
+            reqs.append(("c11.check_axis", [alts, profile, planted]))
+        return reqs
+    if op == "c11.elo_exact":
+        alts, rankings, planted = pl
+        reqs = [("c03.elo", [alts, rankings]), ("c11.check_axis", [alts, [[[a] for a in v] for v in rankings], planted])]
+        if isinstance(r, dict) and r.get("axis"):
+            reqs.append(("c03.check_axis", [alts, rankings, r["axis"]]))
+        return reqs
     return []
 
 
@@ -504,10 +605,28 @@ def judge(c, r, mres):
             msg = proto.untext(r["pq"][2]) if len(r["pq"]) > 2 else "error code %r" % (r["pq"][1],)
             return {"kind": "exception", "theorem": "pq_tree_sp_sound",
                     "reason": "is_single_peaked_pq_tree raised on an in-domain instance: %s" % msg}
+        if len(mres) > 1 and mres[1] == 1 and r["pq"] != [0, 1]:
+            return {"kind": "mismatch", "theorem": "check_axis_correct / spw_decide_correct",
+                    "reason": "is_single_peaked_pq_tree -> %r although the planted axis %r passes the verified checker"
+                              % (r["pq"], pl[3])}
         if r["pq"] != mres[0]:
             return {"kind": "mismatch", "theorem": "Model/PQTreeSP.v is_single_peaked_pq_tree_algo (mirror) / pq_tree_sp_sound",
                     "reason": "is_single_peaked_pq_tree -> %r, the mirrored algorithm (sp_matrix + isC1P + PQ-tree) -> %r"
                               % (r["pq"], mres[0])}
+        return None
+    if op == "c11.elo_exact":
+        if r["elo"][0] == 1:
+            msg = proto.untext(r["elo"][2]) if len(r["elo"]) > 2 else "error code %r" % (r["elo"][1],)
+            return {"kind": "exception", "theorem": "elo_no_error", "reason": "is_single_peaked raised on a soc instance: %s" % msg}
+        if mres[1] == 1 and r["elo"] != [0, 1]:
+            return {"kind": "mismatch", "theorem": "sp_decide_correct / strict_agree",
+                    "reason": "is_single_peaked -> False although the planted axis %r passes the verified checker" % (pl[2],)}
+        if mres[0][0] != 0 or r["elo"][1] != mres[0][1][0]:
+            return {"kind": "mismatch", "theorem": "elo_correct (mirror of is_single_peaked) / strict_agree",
+                    "reason": "is_single_peaked -> %r, its mirror -> %r" % (r["elo"], mres[0])}
+        if r["elo"][1] == 1 and (len(mres) < 3 or mres[2] != 1):
+            return {"kind": "mismatch", "theorem": "sp_check_axis_correct",
+                    "reason": "is_single_peaked returned the axis %r, not a valid single-peaked axis" % (r.get("axis"),)}
         return None
     if op == "c11.gate":
         for name, mi in zip(("axis", "pq", "ilp"), mres):
@@ -524,6 +643,8 @@ def nontrivial(c, r, m):
     pl = c["payload"]
     if c["op"] == "c11.gate":
         return False
+    if c["op"] == "c11.elo_exact":
+        return len(pl[0]) >= 3 and len(pl[1]) >= 2
     return len(pl[1]) >= 3 and len(pl[2]) >= 2
 
 
@@ -555,6 +676,15 @@ def stats(c, r, m):
         if any(len(o[0]) >= 2 for o in pl[2]):
             lab.append("has tied top")
         return lab
+    if op == "c11.elo_exact":
+        return ["elo_exact (is_single_peaked == its mirror) m=%d n=%d" % (len(pl[0]), len(pl[1])),
+                "elo_exact %s%s" % ("SP" if m[0][0] == 0 and m[0][1][0] == 1 else "notSP",
+                                    " alternating rounds" if c["tags"].get("alt") else "")]
+    if op == "c11.pq_exact" and c["tags"].get("kind") == "volume":
+        return ["pq_exact volume m=%d %s %s" % (len(pl[1]), "strict" if pl[0] == 0 else "weak",
+                                                "SP" if m and m[0] == [0, 1] else "notSP"),
+                "pq_exact volume n=%d" % len(pl[2]),
+                "pq_exact volume: planted axis %s" % ("passes the checker" if len(m) > 1 and m[1] == 1 else "does not pass (perturbed vote)")]
     if op == "c11.pq_exact":
         mm = len(pl[1])
         return ["pq_exact (verdict == mirrored algorithm) m=%s: %s" % (mm if mm <= 7 else ("8-15" if mm <= 15 else "16-30"),
@@ -564,11 +694,15 @@ def stats(c, r, m):
 
 def describe(c):
     pl = c["payload"]
+    if c["op"] == "c11.elo_exact":
+        return {"op": c["op"], "data_type": "soc", "alternatives": pl[0], "orders (best first)": pl[1], "planted_axis": pl[2]}
     d = {"op": c["op"], "data_type": DT[pl[0]], "alternatives": pl[1], "orders": pl[2]}
     if c["op"] == "c11.axes":
         d["axes"] = pl[3]
     elif c["op"] == "c11.deciders":
         d["functions"] = [n for b, n in ((1, "is_single_peaked_pq_tree"), (2, "is_single_peaked_ILP"), (4, "is_single_peaked")) if pl[3] & b]
+    elif c["op"] == "c11.pq_exact":
+        d["planted_axis"] = pl[3]
     else:
         d["axis"] = pl[3]
     return d
@@ -576,8 +710,38 @@ def describe(c):
 
 def shrink(c):
     op, pl = c["op"], c["payload"]
+    if op == "c11.elo_exact":
+        alts, rankings, planted = pl
+        if len(rankings) > 1:
+            for i in range(len(rankings)):
+                yield dict(c, payload=[alts, rankings[:i] + rankings[i + 1:], planted])
+        if len(alts) > 1:
+            for a in alts:
+                nr = []
+                for v in rankings:
+                    q = [x for x in v if x != a]
+                    if q not in nr:
+                        nr.append(q)
+                yield dict(c, payload=[[x for x in alts if x != a], nr, [x for x in planted if x != a]])
+        return
     dt, alts, profile = pl[0], pl[1], pl[2]
     if op == "c11.gate":
+        return
+    if op == "c11.pq_exact":
+        planted = pl[3] if isinstance(pl[3], list) else []
+        if len(profile) > 1:
+            for i in range(len(profile)):
+                yield dict(c, payload=[dt, alts, profile[:i] + profile[i + 1:], planted or 0])
+        if len(alts) > 1:
+            for a in alts:
+                np_ = []
+                for o in profile:
+                    o2 = [cl for cl in ([x for x in cl if x != a] for cl in o) if cl]
+                    if o2 and canon_classes(o2) not in [canon_classes(q) for q in np_]:
+                        np_.append(o2)
+                if np_:
+                    yield dict(c, payload=[dtype_of(np_), [x for x in alts if x != a], np_,
+                                           [x for x in planted if x != a] or 0])
         return
     # fewer axes
     if op == "c11.axes" and len(pl[3]) > 1:
